@@ -98,6 +98,22 @@ def run(ctx, res):
                 texts.append(t)
             res.count("end:final_comment_line")
         cases.append((base, commented, texts))
+    # directed: a literal ending in a backslash closes at its quote like any other; the trailing comment after it is a comment
+    for lit in ("'C:\\'", "'C:\\\\'", "'dir\\sub\\'"):
+        for note in ("the note", "a path", 'say "x"'):
+            directed = [("CREATE TABLE bs (\n  p varchar(20) DEFAULT %s,%s\n  b int\n);\n", lit),
+                        ("CREATE TABLE bs (\n  p varchar(20) DEFAULT %s%s\n, b int\n);\n", lit),
+                        ("CREATE TABLE bs (\n  a int\n) ROW FORMAT DELIMITED FIELDS TERMINATED BY ',' ESCAPED BY %s%s\n;\n", lit)]
+            for tmpl, l_ in directed:
+                cases.append((tmpl % (l_, ""), tmpl % (l_, " -- " + note), [note]))
+    # known finding D13 (KNOWN_FINDINGS.json): an apostrophe in a comment makes the script's quote count odd, which switches on the
+    # "backslash-quote is an escaped quote" reading for the whole script; one witness, replayed on every run
+    kb = "CREATE TABLE bs (\n  p varchar(20) DEFAULT 'C:\\\\'\n, b int\n);\n"
+    kc = "CREATE TABLE bs (\n  p varchar(20) DEFAULT 'C:\\\\' -- it's a path\n, b int\n);\n"
+    ka, kr = ctx.impl.one({"op": "run", "ddl": kb}), ctx.impl.one({"op": "run", "ddl": kc})
+    if "ok" in ka and ("ok" not in kr or entities(py_of_impl(ka["ok"])) != entities(py_of_impl(kr["ok"]))):
+        res.violation("input", "an apostrophe in a trailing comment after a literal ending in a backslash changes the entity", ddl=kc, base=kb,
+                      finding_key="D13-odd-quote-count", oracle="comments_neutral")
     A = ctx.impl.map([{"op": "run", "ddl": b} for b, _, _ in cases])
     B = ctx.impl.map([{"op": "run", "ddl": c} for _, c, _ in cases])
     res.evaluations += len(cases)
